@@ -5,7 +5,8 @@ T-corr: Model/Multiscale.v (extracted) against real pandora.run executions obser
         two disparity grids of every execution) and run_multiscale (the coarse disparity map and
         validity mask handed to disparity_range).  The model receives the real coarse disparity
         maps and validity masks and must predict sizes and grids of every execution exactly.
-Spec  : independent Python oracle of the property sentence on the same observations (number and
+Spec  : the boolean checker extracted from Spec/Multiscale.v (finer_spec_bad, proved sound) applied to the observed
+        grids of every finer level, and an independent Python oracle of the property sentence on the same observations (number and
         order of executions, sizes shrinking by scale_factor, coarsest interval, finer interval
         from the window around a coarse pixel at most one pixel from the geometric parent, steps
         after the multiscale step once at full resolution, output sizes, inputs not modified)."""
@@ -19,23 +20,29 @@ from harness import core
 from harness import pandora_util as pu
 from harness.props.c01 import expected_trace_py
 
-GEN = ["gen_tables"]
+GEN = ["gen_tables", "gen_msconst"]
 EXTRACT_FILES = ["X15"]
 DRIVERS = ["x15"]
 RULE = ("random pandora.run executions: sad, window 3/5, images 12..30 x 14..36 (mono, 2-band, with/without masks with "
         "values 0/1/2), num_scales in {2,3}, scale_factor in {2,3}, marge in {0,1,2}, user intervals divisible or not by "
         "scale_factor^(num_scales-1), optional median filter / validation before the multiscale step, optional filter / "
-        "refinement / validation after it, plus fixed corpus cases (2-band pair with mask values 1 and 2; one image larger "
-        "than the 100-pixel block); every run is non-trivial (>= 2 scales); distinct by (shape, bands, masks, pipeline, "
+        "refinement / validation after it, plus fixed corpus cases (2-band pair with mask values 1 and 2; one 212x230 "
+        "image whose coarse level exceeds the 100-pixel chunk on both axes; one 87x150 image whose 29x50 coarse level "
+        "is zoomed by 3); every run is non-trivial (>= 2 scales); distinct by (shape, bands, masks, pipeline, "
         "num_scales, scale_factor, marge, interval)")
 ASSUMES = [
     "radiometry of the Gaussian pyramid (skimage pyramid_gaussian) and the disparity maps computed at each level are not "
     "modelled: the model takes the real coarse disparity map and validity mask of each level as input data",
-    "scipy.ndimage.zoom(order=0) index map o -> floor(o(n-1)/(sf n - 1) + 1/2): validated against scipy for every (n, sf) "
-    "used in a run (known float deviations of scipy exist for sf=3, n=29,50,63,... outside the sampled sizes)",
+    "scipy.ndimage.zoom(order=0) is an index map per axis, given to the model as DATA: the harness repeats every zoom "
+    "call of the run (same factor and keyword arguments) on an index array; the theorems hold for all maps satisfying "
+    "zoom_contract (in the map, within one pixel of the geometric parent), which is checked on every observed map; the "
+    "exact formula floor(o(n-1)/(sf n - 1) + 1/2) (proved to satisfy the contract) is compared with scipy: they differ "
+    "only on exact ties",
     "for scale_factor 3 the first grids are floats (d/3^n)*3: compared with the model's exact rational within 2^-18 "
     "(bridging rule b) and exactly when the quotient is an integer; all other grids are compared for equality",
     "sequencing (which step runs at which scale) is the model of C01; its theorems are re-used",
+    "theorems on disparity_range assume an odd window (the matching-cost schema enforces it) not larger than the coarse "
+    "map; a valid-flagged pixel whose disparity is NaN counts as invalid (invalid_ind of the code)",
 ]
 TRUSTED = ["cst.PANDORA_MSK_PIXEL_INVALID is read from the imported package and given to the model as data"]
 
@@ -134,7 +141,20 @@ def build_inputs(case):
 
 
 def instrument(m):
-    rec = {"mc": [], "ms": []}
+    """wraps bound methods of one machine and, for the time of the run, the name `zoom` of
+    pandora.multiscale.fixed_zoom_pyramid: each zoom call of disparity_range is repeated, with the
+    same zoom factor and keyword arguments, on 1 + np.arange(n) for both axes, which gives the index
+    map the code really used (0 = scipy read outside the map and returned cval).  rec["undo"]() restores."""
+    import pandora.multiscale.fixed_zoom_pyramid as fzp
+    rec = {"mc": [], "ms": [], "zoom": []}
+    o_zoom = fzp.zoom
+
+    def spy_zoom(a, z, *args, **kw):
+        maps = [[int(v) - 1 for v in o_zoom(np.arange(n, dtype=np.float64) + 1.0, z, *args, **kw)] for n in a.shape]
+        rec["zoom"].append({"shape": tuple(a.shape), "maps": maps, "kw": {k: str(v) for k, v in kw.items()}})
+        return o_zoom(a, z, *args, **kw)
+    fzp.zoom = spy_zoom
+    rec["undo"] = lambda: setattr(fzp, "zoom", o_zoom)
     o_mc = m.matching_cost_run
 
     def mc(cfg, step, _o=o_mc):
@@ -159,9 +179,13 @@ def instrument(m):
         def grab(d):
             return {"D": d["disparity_map"].data.copy(), "V": d["validity_mask"].data.copy(),
                     "ws": int(d.attrs["window_size"])}
-        rec["ms"].append({"scale": m.current_scale, "left": grab(m.left_disparity),
-                          "right": grab(m.right_disparity) if right else None})
-        return _o(cfg, step)
+        entry = {"scale": m.current_scale, "left": grab(m.left_disparity),
+                 "right": grab(m.right_disparity) if right else None}
+        rec["ms"].append(entry)
+        z0 = len(rec["zoom"])
+        res = _o(cfg, step)
+        entry["zoom_calls"] = rec["zoom"][z0:]
+        return res
     m.run_multiscale = ms
     return rec
 
@@ -307,6 +331,37 @@ def spec_finer(case, lvl, nxt, side, invalid_bits):
     return bad
 
 
+def level_zoom_maps(e, sf):
+    """row and column index maps of the zoom calls made by run_multiscale at this level (all its calls zoom
+    arrays of the same shape with the same arguments); the exact formula when no call was observed"""
+    calls = e.get("zoom_calls") or []
+    if calls:
+        return calls[0]["maps"]
+    return [[(2 * o * (n - 1) + (sf * n - 1)) // (2 * (sf * n - 1)) if sf * n > 1 else 0 for o in range(sf * n)]
+            for n in e["left"]["D"].shape]
+
+
+def checker_jobs(case, rec, with_right):
+    """(lvl, nxt, side) triples on which the extracted spec checker (fid 6) is run, with its argument"""
+    jobs = []
+    sf = case["sf"]
+    for lvl, nxt in zip(rec["ms"], rec["mc"][1:]):
+        for side in ("left", "right") if with_right else ("left",):
+            prod = lvl[side]
+            gmin, gmax = (nxt["dmin"], nxt["dmax"]) if side == "left" else (nxt["rdmin"], nxt["rdmax"])
+            rows, cols = nxt["shape"]
+            if prod is None or gmin is None or gmin.shape[0] < rows or gmin.shape[1] < cols:
+                continue
+            s_ = lvl["scale"]
+            dmin, dmax = case["disp"] if side == "left" else (-case["disp"][1], -case["disp"][0])
+            arg = [prod["ws"], case["marge"], sf, enc_oq_grid(prod["D"]), enc_z_grid(prod["V"]),
+                   Fraction(dmin, sf ** (s_ - 1)), Fraction(dmax, sf ** (s_ - 1)), rows, cols,
+                   enc_oq_grid(np.asarray(gmin, dtype=np.float64)[:rows, :cols]),
+                   enc_oq_grid(np.asarray(gmax, dtype=np.float64)[:rows, :cols])]
+            jobs.append((lvl, nxt, side, arg))
+    return jobs
+
+
 def run(ctx):
     import pandora
     import pandora.constants as cst
@@ -331,11 +386,17 @@ def run(ctx):
                                     "disp": (-9, 9), "marge": 2, "pre": ["validation"], "post": ["refinement"]}))
         cases.append(gen_case(rng, {"rows": 18, "cols": 21, "bands": 2, "masks": False, "sf": 3, "n": 2,
                                     "disp": (-6, 3), "marge": 0, "pre": ["filter"], "post": ["validation"]}))
-        cases.append(gen_case(rng, {"rows": 204, "cols": 230, "bands": 1, "masks": False, "sf": 2, "n": 2, "ws": 3,
+        cases.append(gen_case(rng, {"rows": 212, "cols": 230, "bands": 1, "masks": False, "sf": 2, "n": 2, "ws": 3,
                                     "disp": (-4, 2), "marge": 1, "pre": [], "post": []}))
-        for _ in range(22 if quick else 300):
+        # regression of the zoom defect (fix: 93dd666): levels of 29 rows / 50 columns zoomed by 3 read outside the map
+        cases.append(gen_case(rng, {"rows": 87, "cols": 150, "bands": 1, "masks": False, "sf": 3, "n": 2, "ws": 3,
+                                    "disp": (-6, 3), "marge": 1, "pre": [], "post": []}))
+        for _ in range(40 if quick else 600):
             cases.append(gen_case(rng))
         if not quick:
+            # a 63-row coarse level zoomed by 3: scipy and the exact formula differ on a tie (output row 47)
+            cases.append(gen_case(rng, {"rows": 189, "cols": 64, "bands": 1, "masks": True, "sf": 3, "n": 2, "ws": 3,
+                                        "disp": (-3, 3), "marge": 1, "pre": [], "post": ["filter"]}))
             cases.append(gen_case(rng, {"rows": 303, "cols": 211, "bands": 1, "masks": True, "sf": 3, "n": 2, "ws": 5,
                                         "disp": (-6, 3), "marge": 1, "pre": ["validation"], "post": []}))
 
@@ -352,6 +413,8 @@ def run(ctx):
         except Exception as exc:  # pylint: disable=broad-except
             out_l = out_r = None
             err = f"{type(exc).__name__}: {exc}"
+        finally:
+            rec["undo"]()
         obs.append((case, cfg, left, right, left0, right0, m.trace, rec, out_l, out_r, err))
 
     margs = []
@@ -367,14 +430,25 @@ def run(ctx):
         with_right = "validation" in [nm.split(".")[0] for nm in names]
         lvls = []
         for e in rec["ms"]:
+            zm = level_zoom_maps(e, case["sf"])
             lv = [e["left"]["ws"], [enc_oq_grid(e["left"]["D"]), enc_z_grid(e["left"]["V"])],
-                  [[enc_oq_grid(e["right"]["D"]), enc_z_grid(e["right"]["V"])]] if e["right"] is not None else []]
+                  [[enc_oq_grid(e["right"]["D"]), enc_z_grid(e["right"]["V"])]] if e["right"] is not None else [],
+                  zm[0], zm[1]]
             lvls.append(lv)
         margs.append((3, [invalid_bits, case["marge"], case["sf"], case["disp"][0], case["disp"][1], case["rows"],
                           case["cols"], case["n"], with_right, lvls]))
         # mask decimation between consecutive levels (left image): coarser = finer[::sf, ::sf]
         for b in rec["mc"][1:]:
             margs.append((4, [case["sf"], enc_z_grid(mask_src(b, invalid_bits, filled))]))
+        # executions and image sizes prescribed by Spec.spec_trace / Model.image_sizes
+        kinds = [nm.split(".")[0] for nm in names]
+        ims = kinds.index("multiscale")
+        wire = [[i, pu.KIND_CODE[k]] for i, k in enumerate(kinds)]
+        margs.append((7, [case["n"], case["rows"], case["cols"], case["sf"], with_right, wire[:ims], wire[ims], wire[ims + 1:]]))
+        # the extracted spec checker on the observed grids of every finer level
+        if err is None:
+            for _lvl, _nxt, _side, arg in checker_jobs(case, rec, with_right):
+                margs.append((6, arg))
     # zoom contract for every (n, sf) in use
     zoom_keys = sorted({(e["left"]["D"].shape[ax], case["sf"]) for case, *_r, in obs for e in _r[6]["ms"] for ax in (0, 1)})
     for n_, sf_ in zoom_keys:
@@ -410,10 +484,17 @@ def run(ctx):
         for _ in rec["mc"][1:]:
             m_masks.append(mres[k])
             k += 1
+        m_exec, m_out = mres[k]
+        k += 1
         if err is not None:
             ctx.violation("run_failed", f"{desc}: pandora.run raised {err}", replay)
             continue
         with_right = "validation" in [nm.split(".")[0] for nm in names]
+        jobs = checker_jobs(case, rec, with_right)
+        coq_bad = {}
+        for lvl_, _nxt, side_, _arg in jobs:
+            coq_bad[(lvl_["scale"], side_)] = mres[k]
+            k += 1
 
         # ---------- correspondence: model against observation
         impl_params = list(pandora.check_configuration.read_multiscale_params(cfg))
@@ -432,6 +513,16 @@ def run(ctx):
                         grid_matches(gr[0], e["rdmin"], e["rdmax"], exact=(sf == 2))
                 if why is not None:
                     ctx.mismatch("grids", {"scale": e["scale"], **replay}, why, "see model")
+        # Spec.spec_trace against the callbacks observed on the machine; Model.image_sizes / output_size against the
+        # images seen by the matching_cost executions and the returned map
+        m_trace = [(names[e[0]], e[2], bool(e[3])) for e in m_exec]
+        if m_trace != trace:
+            ctx.mismatch("spec_trace", replay, trace, m_trace)
+        m_mc_sizes = [(e[2], (e[4], e[5])) for e in m_exec if e[1] == pu.KIND_CODE["matching_cost"] and not e[3]]
+        if m_mc_sizes != [(e["scale"], tuple(e["shape"])) for e in rec["mc"]]:
+            ctx.mismatch("image_sizes", replay, [(e["scale"], tuple(e["shape"])) for e in rec["mc"]], m_mc_sizes)
+        if tuple(m_out) != tuple(out_l["disparity_map"].shape):
+            ctx.mismatch("output_size", replay, tuple(out_l["disparity_map"].shape), tuple(m_out))
         for a, b, mm in zip(rec["mc"][:-1], rec["mc"][1:], m_masks):
             # a = coarser level, b = finer level
             got = None if a["msk"] is None else [a["msk"].shape[0], a["msk"].shape[1], enc_z_grid(a["msk"])]
@@ -477,8 +568,36 @@ def run(ctx):
         # finer intervals
         for lvl, nxt in zip(rec["ms"], rec["mc"][1:]):
             for side in ("left", "right") if with_right else ("left",):
-                for key, what in spec_finer(case, lvl, nxt, side, invalid_bits)[:1]:
+                py_bad = spec_finer(case, lvl, nxt, side, invalid_bits)
+                for key, what in py_bad[:1]:
                     ctx.violation(key, f"{desc}: {what}", replay)
+                # the same verdict from the checker extracted from Spec/Multiscale.v (C15_spec_checker_sound)
+                cb = coq_bad.get((lvl["scale"], side))
+                if cb is not None:
+                    ctx.count("spec_checker_levels")
+                    if bool(cb) != bool(py_bad):
+                        ctx.mismatch("spec_checker_vs_python_oracle", {"scale": lvl["scale"], "side": side, **replay},
+                                     [w for _k, w in py_bad[:2]], cb[:4])
+                        if cb and not py_bad:
+                            ctx.violation("finer_interval", f"{desc}: scale {lvl['scale'] - 1} {side}: the extracted spec "
+                                                            f"checker rejects the interval of pixels {cb[:4]}", replay)
+        # zoom index contract on the very calls of the run (the hypothesis zoom_contract of the theorems)
+        for lvl in rec["ms"]:
+            calls = lvl.get("zoom_calls") or []
+            if not calls:
+                ctx.violation("zoom_not_called", f"{desc}: run_multiscale at scale {lvl['scale']} did not call zoom", replay)
+                continue
+            if any(c["maps"] != calls[0]["maps"] or c["shape"] != lvl["left"]["D"].shape for c in calls):
+                ctx.mismatch("zoom_calls_differ", {"scale": lvl["scale"], **replay},
+                             [(c["shape"], c["kw"]) for c in calls], "same shape and index maps for every call of a level")
+            for axis, (mp, n_) in enumerate(zip(calls[0]["maps"], lvl["left"]["D"].shape)):
+                ctx.count("zoom_contract_checked")
+                badz = [(o, v) for o, v in enumerate(mp) if not (0 <= v < n_ and abs(v - o // sf) <= 1)]
+                if len(mp) != sf * n_ or badz:
+                    ctx.violation("zoom_outside_map",
+                                  f"{desc}: scale {lvl['scale']}: zoom of axis {axis} ({n_} -> {len(mp)} samples, "
+                                  f"{calls[0]['kw']}) reads (output index, input index) {badz[:3]}: -1 = outside the "
+                                  f"map (the whole output row/column holds cval = 0, i.e. the interval [0, 0])", replay)
         # outputs
         if out_l["disparity_map"].shape != (rows, cols) or (with_right and out_r["disparity_map"].shape != (rows, cols)):
             ctx.violation("outputs_full_size", f"{desc}: output shape {out_l['disparity_map'].shape}", replay)
@@ -494,8 +613,14 @@ def run(ctx):
     for (n_, sf_) in zoom_keys:
         want = mres[k]
         k += 1
-        got = [int(v) for v in zoom(np.arange(n_, dtype=np.float32), sf_, order=0)]
-        ctx.count("zoom_contract_checked")
+        got = [int(v) - 1 for v in zoom(np.arange(n_, dtype=np.float64) + 1.0, sf_, order=0, mode="nearest")]
+        ctx.count("zoom_formula_compared")
         if got != list(want):
-            ctx.mismatch("zoom_index_map", {"n": n_, "sf": sf_}, got, want)
-    ctx.gen_obligations = ["run_tbl_wf Gen.Tables.run_table = true (vm_compute), shared with C01"]
+            # scipy computes the coordinate in floating point: on an exact tie it may take the other neighbour
+            if len(got) == len(want) and all(abs(a - b) <= 1 for a, b in zip(got, want)):
+                ctx.count("zoom_formula_tie_differs")
+            else:
+                ctx.mismatch("zoom_index_map", {"n": n_, "sf": sf_}, got, want)
+    ctx.gen_obligations = ["run_tbl_wf Gen.Tables.run_table = true (vm_compute), shared with C01",
+                           "Gen.MsConst: PANDORA_MSK_PIXEL_INVALID = 963 (bits 0,1,6,7,8,9) and 1 <= chunk size of "
+                           "disparity_range (C15_constants_match); class defaults used as regenerated"]
